@@ -79,7 +79,7 @@ VARIABLES
     now,
     pc,          \* control state: "top", "bs", "poll", "bhe", "ev", "incb", "idle", "inidle"
     dsp,         \* dispatch-local record
-    cbCount,     \* per source: callback invocations so far
+    cbCount,     \* [cb |-> per source: callback invocations so far, bs |-> per source: before_sleep calls so far]
     steps, nfaults, nextIdle,
     failNext,    \* set of <<s, call>>: the next such call of s fails (injected)
     mon,         \* contract monitor state (LoopContract!Step)
@@ -250,7 +250,7 @@ Init ==
   /\ tdl = [s \in S |-> [has |-> D(s).hasdl = 1, v |-> D(s).dl]]
   /\ treg = [s \in S |-> [on |-> FALSE, key |-> NoTok, ctr |-> 0]]
   /\ heap = {} /\ expired = {} /\ nextCtr = 0 /\ now = 0
-  /\ pc = "top" /\ dsp = NoDsp /\ cbCount = [s \in S |-> 0]
+  /\ pc = "top" /\ dsp = NoDsp /\ cbCount = [cb |-> [s \in S |-> 0], bs |-> [s \in S |-> 0]]
   /\ steps = 0 /\ nfaults = 0 /\ nextIdle = 1 /\ failNext = {}
   /\ mon = Feed(Empty, <<ResetEv, SnapEv(<<>>, <<>>, "continue", <<>>, {}, [f \in AllFds |-> [on |-> FALSE]])>>)
   /\ hist = IF RecordHist THEN <<ResetEv, SnapEv(<<>>, <<>>, "continue", <<>>, {}, [f \in AllFds |-> [on |-> FALSE]])>> ELSE <<>>
@@ -433,22 +433,27 @@ DispatchBegin ==
   /\ pc' = "bs" /\ dsp' = [NoDsp EXCEPT !.i = 1]
   /\ Emit(<<[e |-> "op", op |-> "dispatch", ctx |-> 0]>>)
 
-SynthWanted(s) == \E k \in DOMAIN D(s).synth : D(s).synth[k] = cbCount[s]   \* abstraction: keyed by a small counter
+\* the instrumented lifecycle source returns a synthetic event on the before_sleep calls listed in its
+\* declaration, provided it is registered (its own token is the one after its children's)
+SynthWanted(s) == /\ \E k \in DOMAIN D(s).synth : D(s).synth[k] = cbCount.bs[s]
+                  /\ NC(s) >= 1 /\ gtok[s][1] # NoTok
+SynthKey(s) == <<gtok[s][1][1], gtok[s][1][2], NC(s)>>
 
 \* before_sleep for lifecycle entry i (loop_logic.rs: first block of dispatch_events)
 BeforeSleep ==
   /\ pc = "bs" /\ dsp.i <= Len(lifeSet)
   /\ UNCHANGED <<slots, lifeSet, pending, idles, issued, obj, heldD, enabled, gtok, kern, rdy, edgeq, pingCnt, closeBit, handles,
-                 tdl, treg, heap, expired, nextCtr, now, cbCount, steps, nfaults, nextIdle, failNext>>
+                 tdl, treg, heap, expired, nextCtr, now, steps, nfaults, nextIdle, failNext>>
   /\ LET t == lifeSet[dsp.i]
          s == SrcAt(t[1], t[2])
      IN IF s = NoSrc
         THEN \* unreachable!() in the code: the dispatch panics
-             /\ pc' = "top" /\ dsp' = NoDsp
+             /\ pc' = "top" /\ dsp' = NoDsp /\ cbCount' = cbCount
              /\ Emit(<<[e |-> "opret", op |-> "dispatch", ctx |-> 0, r |-> "panic"],
                        SnapEv(slots, lifeSet, pending, idles, heap, kern)>>)
-        ELSE /\ pc' = pc /\ dsp' = [dsp EXCEPT !.i = @ + 1]
-             /\ Emit(<<[e |-> "bs", s |-> s, r |-> "ok", synth |-> 0]>>)
+        ELSE /\ pc' = pc /\ cbCount' = [cbCount EXCEPT !.bs[s] = @ + 1]
+             /\ dsp' = [dsp EXCEPT !.i = @ + 1, !.synth = IF SynthWanted(s) THEN Append(@, SynthKey(s)) ELSE @]
+             /\ Emit(<<[e |-> "bs", s |-> s, r |-> "ok", synth |-> IF SynthWanted(s) THEN 1 ELSE 0]>>)
 
 BsDone == /\ pc = "bs" /\ dsp.i > Len(lifeSet)
           /\ pc' = "poll" /\ dsp' = dsp
@@ -485,9 +490,11 @@ Poll ==
      \E fq \in SetToSeqs(R), tq \in ExpiredSeqs :
        LET real == [i \in DOMAIN fq |-> KEvent(fq[i])]
            tim == [i \in DOMAIN tq |-> [key |-> tq[i].key, rd |-> 1, wr |-> 0]]
-           batch == real \o tim
-           keys == [i \in DOMAIN batch |-> batch[i].key]
-       IN /\ dsp' = [dsp EXCEPT !.batch = batch, !.nreal = Len(real), !.i = 1, !.pos = 1]
+           polled == real \o tim
+           keys == [i \in DOMAIN polled |-> polled[i].key]
+           \* the synthetic events are dispatched first, then what the poll returned
+           batch == [i \in DOMAIN dsp.synth |-> [key |-> dsp.synth[i], rd |-> 1, wr |-> 0]] \o polled
+       IN /\ dsp' = [dsp EXCEPT !.batch = batch, !.nreal = Len(dsp.synth), !.i = 1, !.pos = 1]
           /\ kern' = [f \in AllFds |-> IF f \in R /\ kern[f].mode = "oneshot" THEN [kern[f] EXCEPT !.armed = FALSE] ELSE kern[f]]
           /\ edgeq' = edgeq \ R
           /\ heap' = heap \ {tq[i] : i \in DOMAIN tq}
@@ -501,14 +508,15 @@ BeforeHandle ==
                  tdl, treg, heap, expired, nextCtr, now, cbCount, steps, nfaults, nextIdle, failNext>>
   /\ LET t == lifeSet[dsp.i]
          s == SrcAt(t[1], t[2])
-         keys == SelectSeq([i \in DOMAIN dsp.batch |-> dsp.batch[i].key], LAMBDA k : <<k[1], k[2]>> = t)
+         \* the iterator ranges over the polled events only (never the synthetic ones: dsp.nreal = their number)
+         keys == SelectSeq([i \in 1..(Len(dsp.batch) - dsp.nreal) |-> dsp.batch[dsp.nreal + i].key], LAMBDA k : <<k[1], k[2]>> = t)
      IN /\ s # NoSrc           \* (the empty-slot case already panicked in before_sleep)
         /\ Emit(<<[e |-> "bhe", s |-> s, keys |-> keys]>>)
   /\ dsp' = [dsp EXCEPT !.i = @ + 1] /\ pc' = pc
 
 BheDone == /\ pc = "bhe" /\ dsp.i > Len(lifeSet)
            /\ pc' = "ev" /\ dsp' = dsp
-           /\ Emit(<<[e |-> "synth", keys |-> <<>>]>>)
+           /\ Emit(<<[e |-> "synth", keys |-> dsp.synth]>>)
            /\ UNCHANGED <<slots, lifeSet, pending, idles, issued, obj, heldD, enabled, gtok, kern, rdy, edgeq, pingCnt, closeBit,
                           handles, tdl, treg, heap, expired, nextCtr, now, cbCount, steps, nfaults, nextIdle, failNext>>
 
@@ -548,7 +556,11 @@ ProcessBegin ==
      IN IF c = 0
         THEN \* token not ours: Ok(Continue) without touching anything
              /\ pc' = "post" /\ dsp' = [dsp EXCEPT !.ev = <<0, 0, 0>>, !.act = "continue"]
-             /\ Emit(<<PeEv(s), [e |-> "peret", s |-> s, act |-> "continue", us |-> Us]>>)
+             \* (the instrumented lifecycle source recognises its own synthetic token and logs it)
+             /\ Emit(<<PeEv(s)>>
+                     \o (IF IsLife(s) /\ NC(s) >= 1 /\ gtok[s][1] # NoTok /\ CurEv.key = SynthKey(s)
+                         THEN <<[e |-> "synth_pe", s |-> s]>> ELSE <<>>)
+                     \o <<[e |-> "peret", s |-> s, act |-> "continue", us |-> Us]>>)
              /\ UNCHANGED <<pingCnt, closeBit, cbCount, expired>>
         ELSE IF KindOf(s) = "ping"
         THEN \* drain the eventfd; callback iff pinged; Remove iff the close marker was there
@@ -556,8 +568,8 @@ ProcessBegin ==
              THEN /\ pc' = "incb" /\ dsp' = [dsp EXCEPT !.ops = MaxCbOps, !.ev = <<IF closeBit[s] = "pending" THEN 1 ELSE 0, 0, 0>>]
                   /\ pingCnt' = [pingCnt EXCEPT ![s] = 0]
                   /\ closeBit' = [closeBit EXCEPT ![s] = IF @ = "pending" THEN "seen" ELSE @]
-                  /\ cbCount' = [cbCount EXCEPT ![s] = @ + 1]
-                  /\ Emit(<<PeEv(s), [e |-> "cb", s |-> s, sub |-> 0, p |-> 0, k |-> cbCount[s], us |-> Us]>>)
+                  /\ cbCount' = [cbCount EXCEPT !.cb[s] = @ + 1]
+                  /\ Emit(<<PeEv(s), [e |-> "cb", s |-> s, sub |-> 0, p |-> 0, k |-> cbCount.cb[s], us |-> Us]>>)
                   /\ UNCHANGED expired
              ELSE /\ pc' = "post"
                   /\ dsp' = [dsp EXCEPT !.ev = <<IF closeBit[s] = "pending" THEN 1 ELSE 0, 0, 0>>,
@@ -566,11 +578,11 @@ ProcessBegin ==
                   /\ Emit(<<PeEv(s), [e |-> "peret", s |-> s, act |-> IF closeBit[s] = "pending" THEN "remove" ELSE "continue", us |-> Us]>>)
                   /\ UNCHANGED <<pingCnt, cbCount, expired>>
         ELSE /\ pc' = "incb" /\ dsp' = [dsp EXCEPT !.ops = MaxCbOps, !.ev = <<0, c, 0>>]
-             /\ cbCount' = [cbCount EXCEPT ![s] = @ + 1]
+             /\ cbCount' = [cbCount EXCEPT !.cb[s] = @ + 1]
              /\ expired' = IF KindOf(s) = "timer" THEN expired \ {treg[s].ctr} ELSE expired
              /\ Emit(<<PeEv(s), [e |-> "cb", s |-> s, sub |-> IF KindOf(s) = "comp" THEN c - 1 ELSE 0,
                                  p |-> IF KindOf(s) = "timer" THEN tdl[s].v * Tick ELSE CurEv.rd + 2 * CurEv.wr,
-                                 k |-> cbCount[s], us |-> Us]>>)
+                                 k |-> cbCount.cb[s], us |-> Us]>>)
              /\ UNCHANGED <<pingCnt, closeBit>>
 
 \* the callback returns `ret`; process_events returns the source's post action
@@ -580,7 +592,9 @@ CallbackEnd(ret) ==
   /\ LET s == dsp.disp
          act == CASE KindOf(s) = "ping" -> IF dsp.ev[1] = 1 THEN "remove" ELSE "continue"
                   [] KindOf(s) = "timer" -> IF ret = "drop" THEN "remove" ELSE "continue"
-                  [] OTHER -> ret
+                  \* a composite combines its children's results with `|`: the children whose token it was
+                  \* not return Continue, so with several children anything else becomes Reregister
+                  [] OTHER -> IF NC(s) > 1 /\ ret \notin {"continue", "err"} THEN "reregister" ELSE ret
          ndl == IF ret = "to1" THEN now + 1 ELSE now
      IN /\ IF KindOf(s) = "timer" /\ ret # "drop"
            THEN \* insert_reuse under the registration's counter
@@ -633,7 +647,8 @@ PostAction ==
         /\ obj' = [obj EXCEPT ![s] = obj2]
         /\ enabled' = [enabled EXCEPT ![s] = IF gone \/ act = "disable" THEN FALSE ELSE @]
         /\ Emit(applyEv \o r1.evs \o r2.evs \o (IF dies THEN DropEvs(s) ELSE <<>>))
-        /\ pc' = "ev" /\ dsp' = [dsp EXCEPT !.disp = NoSrc, !.pos = @ + 1]
+        \* a failing re-registration / unregistration of the post action is reported by this dispatch as well
+        /\ pc' = "ev" /\ dsp' = [dsp EXCEPT !.disp = NoSrc, !.pos = @ + 1, !.err = @ \/ ~r1.ok]
 
 EventsDone ==
   /\ pc = "ev" /\ dsp.pos > Len(dsp.batch) /\ dsp.disp = NoSrc
